@@ -105,8 +105,65 @@ fn es<T>(r: Result<T, std::io::Error>) -> Result<T, String> {
     r.map_err(|e| scrub(&e.to_string()))
 }
 
+// ------------------------------------------------------------------------------------------
+// "Reload" construction mode. Anything a VM derives from its program (compiled code, frame-size
+// tables, call tables, flags) has to be rebuilt when another program is loaded. With the mode on,
+// `AnyVm::new(kind, Some(p))` creates the VM with a decoy program and then loads `p` with
+// `set_program`, so that every program corpus can also be run on a VM object that held another
+// program before. The decoys: 1 = two instructions, no stack, no call; 2 = 64 calls of helper 1;
+// 3 = stack stores, a local call, a wide load, a packet load.
+
+thread_local! {
+    static RELOAD: std::cell::Cell<u8> = const { std::cell::Cell::new(0) };
+}
+
+pub fn set_reload(k: u8) {
+    RELOAD.with(|r| r.set(k));
+}
+
+pub fn reload_mode() -> u8 {
+    RELOAD.with(|r| r.get())
+}
+
+pub fn decoy(k: u8) -> &'static [u8] {
+    use std::sync::OnceLock;
+    static D: OnceLock<[Vec<u8>; 3]> = OnceLock::new();
+    let d = D.get_or_init(|| {
+        use crate::isa;
+        let d1 = isa::enc(&[isa::mov64i(0, 0), isa::EXIT]);
+        let mut v = vec![];
+        for _ in 0..64 {
+            v.push(isa::I::new(0x85, 0, 0, 0, 1));
+        }
+        v.push(isa::EXIT);
+        let d2 = isa::enc(&v);
+        let mut w = vec![isa::mov64i(1, 7), isa::stxdw(10, -8, 1), isa::stxdw(10, -512, 1), isa::call_local(3)];
+        w.extend(isa::lddw(0, 0x1122_3344_5566_7788));
+        w.push(isa::EXIT);
+        w.push(isa::I::new(0x30, 0, 0, 0, 0)); // ldabsb 0
+        w.push(isa::mov64i(6, 1));
+        w.push(isa::EXIT);
+        let d3 = isa::enc(&w);
+        [d1, d2, d3]
+    });
+    &d[(k as usize - 1) % 3]
+}
+
 impl<'a> AnyVm<'a> {
     pub fn new(kind: VmKind, prog: Option<&'a [u8]>) -> Result<AnyVm<'a>, String> {
+        let k = reload_mode();
+        if let (Some(p), true) = (prog, k > 0) {
+            let mut v = Self::new_plain(kind, Some(decoy(k)))?;
+            let offs = match kind {
+                VmKind::Fixed(a, b) => (a, b),
+                _ => (0, 0),
+            };
+            v.set_program(p, offs)?;
+            return Ok(v);
+        }
+        Self::new_plain(kind, prog)
+    }
+    pub fn new_plain(kind: VmKind, prog: Option<&'a [u8]>) -> Result<AnyVm<'a>, String> {
         Ok(match kind {
             VmKind::Raw => AnyVm::Raw(es(EbpfVmRaw::new(prog))?),
             VmKind::Mbuff => AnyVm::Mbuff(es(EbpfVmMbuff::new(prog))?),
